@@ -36,11 +36,21 @@ Definition c_model (c : ccase) : option (list fpeak) :=
   | None => None
   end.
 
+(* peaks of equal m/z may come out in any order (the property only asks for sorted m/z): order equal-m/z runs by
+   intensity on both sides before comparing *)
+Fixpoint ins_peak (x : fpeak) (l : list fpeak) : list fpeak :=
+  match l with
+  | [] => [x]
+  | y :: r => if PrimFloat.ltb (mz x) (mz y) || (PrimFloat.eqb (mz x) (mz y) && PrimFloat.ltb (inten x) (inten y))
+              then x :: y :: r else y :: ins_peak x r
+  end.
+Definition canon_peaks (l : list fpeak) : list fpeak := fold_left (fun acc x => ins_peak x acc) l [].
+
 Definition c_tie (cmp : float -> float -> bool) (c : ccase) : bool :=
   match cc_ents c, cc_out c with
   | [], Some [] => true
   | _, _ => match c_model c, cc_out c with
-            | Some m, Some o => list_agree (peak_agree cmp) m o
+            | Some m, Some o => list_agree (peak_agree cmp) (canon_peaks m) (canon_peaks o)
             | _, _ => false
             end
   end.
